@@ -642,3 +642,41 @@ M('C18', 'c18-start-prompt-notify-early', 'openhtf/plugs/user_input.py',
   "        self._console_prompt.start()\n\n      self.notify_update()\n      return prompt_id",
   "        self._console_prompt.start()\n\n      return prompt_id",
   'starting a prompt is not followed by a notification')
+
+# ---------------------------------------------------------------- C14
+M('C14', 'c14-notify-while-holding-reader-lock', 'openhtf/plugs/usb/adb_protocol.py',
+  "        finally:\n          self._reader_lock.release()\n          # Notify anyone interested that we handled a message (or gave up),\n          # causing them to check their predicate again.  This must happen\n          # after the reader lock is released: a waiter that re-checked while\n          # we still held it would go back to waiting with nobody reading.\n          with self._message_received:\n            self._message_received.notify_all()",
+  "          with self._message_received:\n            self._message_received.notify_all()\n        finally:\n          self._reader_lock.release()",
+  'waiters notified before the reader lock is released (F11 regression)')
+M('C14', 'c14-remote-id-recorded-late', 'openhtf/plugs/usb/adb_protocol.py',
+  "      if message.command == 'OKAY':\n        # Record the remote id while we still hold the connection's reader\n        # lock: the next message (read by any thread) may already be a WRTE\n        # for this stream, which can only be acked once the id is known.\n        stream_transport._set_or_check_remote_id(message.arg0)  # pylint: disable=protected-access\n",
+  "",
+  'remote id recorded only after the reader lock was released (F19 regression)')
+M('C14', 'c14-wait-without-recheck', 'openhtf/plugs/usb/adb_protocol.py',
+  "          if not predicate():\n            self._message_received.wait(timeout.remaining)\n            if timeout.has_expired():\n              raise usb_exceptions.AdbTimeoutError(\n                  '%s timed out reading messages.' % self)",
+  "          if True:\n            self._message_received.wait(timeout.remaining)\n            if timeout.has_expired():\n              raise usb_exceptions.AdbTimeoutError(\n                  '%s timed out reading messages.' % self)",
+  'waiter does not re-check its predicate under the condition lock (F26 regression)')
+M('C14', 'c14-ack-twice', 'openhtf/plugs/usb/adb_protocol.py',
+  "    if message.command == 'WRTE':\n      self._send_command('OKAY', timeout=timeout)\n    elif message.command == 'OKAY':",
+  "    if message.command == 'WRTE':\n      self._send_command('OKAY', timeout=timeout)\n      self._send_command('OKAY', timeout=timeout)\n    elif message.command == 'OKAY':",
+  'a WRTE read on behalf of another stream is acknowledged twice')
+M('C14', 'c14-no-ack-for-other-stream', 'openhtf/plugs/usb/adb_protocol.py',
+  "    if message.command == 'WRTE':\n      self._send_command('OKAY', timeout=timeout)\n    elif message.command == 'OKAY':",
+  "    if message.command == 'WRTE':\n      pass\n    elif message.command == 'OKAY':",
+  'a WRTE read on behalf of another stream is never acknowledged')
+M('C14', 'c14-chunk-too-large', 'openhtf/plugs/usb/adb_protocol.py',
+  "      self._transport.write(data[:self._transport.adb_connection.maxdata],\n                            timeout)\n      data = data[self._transport.adb_connection.maxdata:]",
+  "      self._transport.write(data[:self._transport.adb_connection.maxdata + 1],\n                            timeout)\n      data = data[self._transport.adb_connection.maxdata + 1:]",
+  'host chunks one byte larger than maxdata')
+M('C14', 'c14-no-write-lock', 'openhtf/plugs/usb/adb_protocol.py',
+  "    with self._write_lock:\n      self._expecting_okay = True\n      self._send_command('WRTE', timeout, data)\n      self._read_messages_until_true(lambda: not self._expecting_okay, timeout)",
+  "    if True:\n      self._expecting_okay = True\n      self._send_command('WRTE', timeout, data)",
+  'write does not wait for the OKAY: several WRTE outstanding')
+M('C14', 'c14-queue-to-wrong-stream', 'openhtf/plugs/usb/adb_protocol.py',
+  "        dest_transport = self._stream_transport_map.get(message.arg1)\n",
+  "        dest_transport = self._stream_transport_map.get(message.arg1)\n        if message.command == 'WRTE' and len(message.data) == 7: dest_transport = stream_transport\n",
+  'a particular WRTE of another stream is queued to the reading stream')
+M('C14', 'c14-connection-reader-lock-dropped', 'openhtf/plugs/usb/adb_protocol.py',
+  "      # If someone else has the Lock, just keep checking our queue.\n      if not self._reader_lock.acquire(False):\n        continue\n",
+  "      # If someone else has the Lock, just keep checking our queue.\n      self._reader_lock.acquire(False)\n",
+  'connection-level reader election removed: several threads read the transport')
